@@ -28,7 +28,7 @@ type c09Params struct {
 
 func (p c09Params) name() string {
 	a := p.Adv
-	if p.Adv == "stallHeader" || p.Adv == "stallPayload" {
+	if p.Adv == "stallHeader" || p.Adv == "stallPayload" || p.Adv == "stallPing" {
 		a = fmt.Sprintf("%s%d", p.Adv, p.AdvK)
 	}
 	return fmt.Sprintf("%s/%s/%s/%s", a, p.State, p.Action, p.K.String())
@@ -78,6 +78,24 @@ func c09Setup(prm c09Params) func(c *fw.Ctx, name string) explore.Setup {
 						r.Read(b[:])
 					}
 					conn.Reader(bg) // fails: previous message not read to completion
+				case "peerclosed-closeread", "ctxclosed-closeread":
+					// the connection is closed underneath the application (peer's Close frame
+					// handled by a Read, or a Read whose context expired), then CloseRead is
+					// called for the first time
+					if prm.State == "peerclosed-closeread" {
+						st.p.Send(peerClose(k, 1001, ""))
+						conn.Read(bg)
+					} else {
+						rctx, cancel := vctx.WithTimeout(bg, time.Second)
+						conn.Read(rctx)
+						cancel()
+					}
+					ctx := conn.CloseRead(bg)
+					w.GoHarness("ctxwaiter", true, func() {
+						vs.Recv(ctx.Done())
+						st.ctxDoneAt = w.Now
+						st.ctxDone = true
+					})
 				case "closeread", "closeread-data":
 					ctx := conn.CloseRead(bg)
 					w.GoHarness("ctxwaiter", true, func() {
@@ -97,6 +115,14 @@ func c09Setup(prm c09Params) func(c *fw.Ctx, name string) explore.Setup {
 						st.p.Send(data100[:prm.AdvK])
 					case "stallPayload":
 						st.p.Send(data100[:hdrLen+prm.AdvK])
+					case "stallPing":
+						// a Ping frame whose header and the first AdvK payload bytes arrive together; then silence
+						f := peerFrame(k, frame.Frame{Fin: true, Opcode: frame.OpPing, Payload: fill(0x70, 20)})
+						st.p.Send(f[:len(f)-20+prm.AdvK])
+					case "stallCloseFrame":
+						// the peer's own Close frame with a reason, cut inside the payload
+						f := peerClose(k, 1000, "a reason of some length")
+						st.p.Send(f[:len(f)-10])
 					case "dataThenSilent":
 						st.p.Send(data100)
 					case "flood":
@@ -221,11 +247,11 @@ func c09Scenarios(tier string) []scenario {
 		a string
 		k int
 	}
-	advs := []adv{{"silent", 0}, {"stallHeader", 1}, {"stallPayload", 0}, {"stallPayload", 7}, {"dataThenSilent", 0}, {"flood", 0}, {"halfclose", 0}, {"echo4900", 0}, {"echo5000", 0}, {"echo5100", 0}}
+	advs := []adv{{"silent", 0}, {"stallHeader", 1}, {"stallPayload", 0}, {"stallPayload", 7}, {"dataThenSilent", 0}, {"flood", 0}, {"halfclose", 0}, {"echo4900", 0}, {"echo5000", 0}, {"echo5100", 0}, {"stallPing", 0}, {"stallPing", 5}, {"stallCloseFrame", 0}}
 	if tier == "thorough" {
 		advs = append(advs, adv{"stallHeader", 2}, adv{"stallHeader", 3}, adv{"stallHeader", 5}, adv{"stallPayload", 1}, adv{"stallPayload", 50}, adv{"stallPayload", 99})
 	}
-	states := []string{"idle", "reader", "halfread", "halfread-reread", "closeread", "closeread-data", "writer", "ping"}
+	states := []string{"idle", "reader", "halfread", "halfread-reread", "closeread", "closeread-data", "peerclosed-closeread", "ctxclosed-closeread", "writer", "ping"}
 	for _, k := range []connCfg{{Client: false}, {Client: true}} {
 		for _, a := range advs {
 			for _, s := range states {
